@@ -186,11 +186,54 @@ def run_check(run, tier):
             run.add(ob, 'unknown', cur['backend'], cur['ms'], FN, cur.get('detail', ''))
             run.undecide(ob, cur.get('detail', ''))
     run.hashes.update(sess.repo.hashes)
-    try:
-        from checks import c13_commute
-        c13_commute.run_part(run, tier)
-    except ImportError:
-        pass
+    from checks import c13_commute
+    c13_commute.run_part(run, tier)
+    closure(run, tier)
+
+
+def an_C13_closure(mod, name, paths, fq):
+    """what a decoder reads from inside its window survives the event filter that traces() builds for its class"""
+    import ast
+    from checks import decoder_checks as DCK
+    codes = DCK.BUNDLED
+    own = codes.get(name)
+    if own is None:
+        return []
+    own_class = own >> 24
+    allowed = {own_class, 7} | ({3} if own_class == 4 else set())
+    ob = 'C13/closure/%s.%s' % (mod, name)
+    bad = None
+    for s in paths:
+        names = set()
+        for cmp_ in s.notes.get('comps', []):
+            o = cmp_.origin
+            node = o[2]
+            for g in node.generators:
+                for cnd in g.ifs:
+                    for c in ast.walk(cnd):
+                        if isinstance(c, ast.Constant) and isinstance(c.value, str) and c.value:
+                            names.add(c.value)
+        if s.lookups:
+            names.add('VFS_LOOKUP')
+        for nm in names:
+            ids = [k for n_, k in codes.items() if n_ == nm or (nm.endswith('*') and n_.startswith(nm[:-1]))]
+            if nm == 'RealFaultAddress':
+                ids = [k for n_, k in codes.items() if n_.startswith(nm)]
+            for k in ids:
+                if (k >> 24) not in allowed:
+                    bad = 'reads nested %s records (class %#x), which the event filter for class %#x does not keep' % (nm, k >> 24, own_class)
+    if bad is None:
+        return [DCK.rec(ob, 'proved', 'symbolic execution: nested records selected by names of the own class / helper classes', 0, fq)]
+    return [DCK.rec(ob, 'refuted', 'symbolic execution', 0, fq, bad, viol={'request': None, 'what': '%s %s' % (name, bad), 'solver_output': bad})]
+
+
+def closure(run, tier):
+    from checks import decoder_checks as DCK
+    out = native({'kind': 'default_codes'})
+    DCK.BUNDLED = {v: k for k, v in out.get('codes', [])}
+    DCK.ANALYSES['C13'] = an_C13_closure
+    recs, _ = DCK.run_pool(run, 'C13')
+    DCK.absorb(run, recs)
 
 
 def concretize(model, info):
